@@ -896,6 +896,26 @@ func FpPred(op string, a *Term) *Term { // fp.isNaN fp.isInfinite fp.isNegative 
 			return ConstBool(x == 0)
 		}
 	}
+	if a.op == "fp.frombits" {
+		// predicates of a reinterpreted bit pattern are bit-vector formulas
+		// (keeps the floating-point theory out of the queries)
+		b := a.args[0]
+		exp := Extract(62, 52, b)
+		man := Extract(51, 0, b)
+		sign := Eq(Extract(63, 63, b), ConstBV(1, 1))
+		expAll := Eq(exp, ConstBV(11, 0x7FF))
+		manZero := Eq(man, ConstBV(52, 0))
+		switch op {
+		case "fp.isNaN":
+			return And(expAll, Not(manZero))
+		case "fp.isInfinite":
+			return And(expAll, manZero)
+		case "fp.isNegative":
+			return And(sign, Not(And(expAll, Not(manZero))))
+		case "fp.isZero":
+			return And(Eq(exp, ConstBV(11, 0)), manZero)
+		}
+	}
 	return mk(op, BoolS, 0, 0, 0, "", a)
 }
 func FpNeg(a *Term) *Term {
